@@ -606,6 +606,11 @@ func conclude(p *Property, m *Merged, nsh int, t0 time.Time) int {
 		os.WriteFile(filepath.Join(vd, ".work", p.ID+"-evidence"+sfx+".json"), b, 0o644)
 	} else {
 		os.WriteFile(filepath.Join(vd, "evidence", p.ID+".json"), b, 0o644)
+		if m.Tier == "thorough" {
+			// a second copy that the next quick run does not overwrite
+			os.MkdirAll(filepath.Join(vd, "evidence", "thorough"), 0o755)
+			os.WriteFile(filepath.Join(vd, "evidence", "thorough", p.ID+".json"), b, 0o644)
+		}
 	}
 
 	fmt.Printf("SUMMARY property=%s tier=%s seed=%d cases=%d distinct(%s)=%d violations=%d known=%d wall=%.1fs\n",
